@@ -20,6 +20,17 @@ def create_folder_with_file(folder, file_name, content):
     os.rename(tmp_folder, folder)
 
 
+def zip_path_of(src_path):
+    """
+    path of the single-zip form of src_path: '<src_path>.zip' (src_path itself if it already names a .zip)
+    src_path.with_suffix(".zip") would REPLACE the part after the last dot, i.e. 'data/ds.v2' would be looked up
+    (and extracted from) 'data/ds.zip' instead of 'data/ds.v2.zip'
+    """
+    if src_path.suffix == ".zip":
+        return src_path
+    return src_path.with_name(f"{src_path.name}.zip")
+
+
 def folder_contains_mostly_zips(path):
     # check if subfolders are zips (allow files such as a README inside the folder)
     items = os.listdir(path)
